@@ -110,6 +110,27 @@ func runCheck(id, tier string, only *replayFile) int {
 		}
 	}()
 	f(c)
+	if tier == "thorough" && only == nil {
+		// the same rules under other build configurations (build-tagged files, word size); a configuration
+		// that does not load (cgo-only packages when cross-compiling) is skipped with a note
+		for _, o := range []loadOpts{{env: []string{"GOARCH=386", "CGO_ENABLED=0"}}, {env: []string{"GOOS=windows", "CGO_ENABLED=0"}}, {env: []string{"GOOS=darwin", "GOARCH=arm64", "CGO_ENABLED=0"}}} {
+			o := o
+			c.override = &o
+			func() {
+				defer func() {
+					if r := recover(); r != nil {
+						if s, ok := r.(loadSkip); ok {
+							c.Note("build configuration %v skipped: %s", o.env, string(s))
+							return
+						}
+						panic(r)
+					}
+				}()
+				f(c)
+			}()
+		}
+		c.override = nil
+	}
 	if only != nil {
 		// Replay: re-evaluate exactly one obligation on the current tree.
 		for _, o := range c.obs {
